@@ -214,7 +214,16 @@ func C20Incompatible() {
 		mp map[string]int32
 		st zzInner
 	)
-	switch sym.Choose("pair", 19) {
+	switch sym.Choose("pair", 21) {
+	case 19:
+		// the KEY kinds are incompatible (the elements are fine)
+		var d map[int32]int32
+		sym.Assert(ConvertFrom(&d, map[string]int32{"a": sym.I32("x"), "b": sym.I32("y")}) != nil, "map key string->int/refused")
+	case 20:
+		type src struct{ M map[string]int32 }
+		type dst struct{ M map[bool]int32 }
+		var d dst
+		sym.Assert(ConvertFrom(&d, src{M: map[string]int32{"a": sym.I32("x")}}) != nil, "struct-member map key string->bool/refused")
 	case 15:
 		// a list of bytes is a list, not a string (they only share their wire format)
 		sym.Assert(ConvertFrom(&s, []uint8{sym.U8("x"), sym.U8("y")}) != nil, "[]uint8->string/refused")
